@@ -110,6 +110,13 @@ func genDocs(r *Rng, maxNodes int) []DocSpec {
 			if r.Chance(1, 6) {
 				ds[i].NoNS = true
 			}
+			// other legal navigator behaviours
+			if r.Chance(1, 8) {
+				ds[i].TextName = true
+			}
+			if r.Chance(1, 8) {
+				ds[i].ShallowValue = true
+			}
 		}
 	}()
 	for i := 0; i < n; i++ {
